@@ -48,13 +48,16 @@ class World:
         ctx.floor("modules parsed", st["modules"], FLOORS["modules"])
         ctx.floor("functions modelled", st["functions"], FLOORS["functions"])
         ctx.floor("call sites", st["call_sites"], FLOORS["call_sites"])
-        ctx.floor("API roots resolved", len(self.roots), FLOORS["api_roots"])
+        ctx.floor("API roots resolved", len(self.roots), FLOORS["api_roots"], soft=True)
         resolved = st["call_sites"] - st["unresolved_call_sites"]
         if resolved * 100 < st["call_sites"] * 98:
-            raise core.AnalysisError(f"only {resolved}/{st['call_sites']} call sites resolved (< 98 %)")
-        if self.model.precondition_lost:
-            f, n, nm = self.model.precondition_lost[0]
-            raise core.AnalysisError(f"analysis precondition lost: reflective call {nm}() in {f} line {n.lineno}")
+            ctx.unk(f"{ctx.prop}.0", "call graph: resolved call sites", "", f"only {resolved}/{st['call_sites']} call sites resolved (< 98 %): "
+                    "which code a public function reaches is not known well enough; what is reported below is about the resolved part")
+        for f, n, nm in self.model.precondition_lost:
+            if f.rsplit(".", 1)[-1] in ("__getattr__", "__dir__") and self.model.funcs.get(f) is not None and not self.model.funcs[f].cls:
+                continue        # PEP 562 module attribute hook: resolves names of the package lazily, calls nothing on behalf of the API
+            ctx.unk(f"{ctx.prop}.0", f"reflective call {nm}() in {f}", f"{self.model.funcs[f].rel}:{n.lineno}" if f in self.model.funcs else "",
+                    "the call graph cannot follow a callee chosen by name at run time: reachability from the public functions is incomplete")
         self.reach = self.model.reachable(self.roots)
         self.unknown_decorators = [(f, d) for f, d in self.model.unknown_decorators() if f in self.model.reachable(self.roots)]
         ctx.analysed.update({"modules": st["modules"], "functions": st["functions"], "classes": st["classes"], "call_sites": st["call_sites"],
